@@ -99,6 +99,11 @@ type hResult struct {
 	disag []string
 }
 
+// harness files left out because they do not compile against the current tree
+var droppedHarness = map[string]bool{}
+
+var harnessFileRe = regexp.MustCompile(`/[^\s:]*/zz_vf_[A-Za-z0-9_]+\.go`)
+
 func runProperty(repo, root, id, tier, only string) int {
 	t0 := time.Now()
 	prop := findProp(id)
@@ -114,6 +119,24 @@ func runProperty(repo, root, id, tier, only string) int {
 		return 2
 	}
 	prog, err := engine.Load(repo, ov)
+	// a harness file that no longer compiles against the current tree (it names
+	// a symbol the change removed) must not take the other harnesses down: it
+	// is left out and the properties that need it come back inconclusive
+	for try := 0; err != nil && try < 4; try++ {
+		dropped := false
+		for _, f := range harnessFileRe.FindAllString(err.Error(), -1) {
+			if _, ok := ov[f]; ok && !strings.HasSuffix(f, "zz_vf_api.go") {
+				delete(ov, f)
+				droppedHarness[f] = true
+				dropped = true
+				fmt.Printf("NOTE: harness file %s does not compile against the current tree and is left out\n", f)
+			}
+		}
+		if !dropped {
+			break
+		}
+		prog, err = engine.Load(repo, ov)
+	}
 	if err != nil {
 		fmt.Println("INCONCLUSIVE: cannot load /repo with harness overlay:", err)
 		writeEvidence(root, prop, tier, seed, nil, nil, time.Since(t0).Seconds(), []string{"load: " + err.Error()}, 0)
@@ -543,6 +566,9 @@ func writeOverlay(repo, root, pkgDir, dir string, tries int) error {
 		var stubs []stub
 		for _, e := range ents {
 			if e.IsDir() || !strings.HasPrefix(e.Name(), "zz_vf_") || !strings.HasSuffix(e.Name(), ".go") {
+				continue
+			}
+			if droppedHarness[filepath.Join(repo, hd, e.Name())] {
 				continue
 			}
 			repl[filepath.Join(repo, hd, e.Name())] = filepath.Join(hdir, e.Name())
